@@ -56,7 +56,7 @@ var msgCJK = []rune("必填项请输入正确的值手机号长度一\u4e00\u9fa
 var msgOtherScripts = []rune("テストéß한글😀\u4dff\u9fa6\u4000\u9fff\u3400") // no character in U+4E00..U+9FA5 (the neighbours just outside included): English label
 
 func genMsg(t *rapid.T) (msg, class string) {
-	class = rapid.SampledFrom([]string{"ascii", "ascii", "cjk", "cjk", "mixed", "other-script", "one-byte", "one-rune-cjk", "quoted-comma", "with-equals"}).Draw(t, "msgClass")
+	class = rapid.SampledFrom([]string{"ascii", "ascii", "cjk", "cjk", "mixed", "other-script", "one-byte", "one-rune-cjk", "quoted-comma", "with-equals", "double-quoted-words"}).Draw(t, "msgClass")
 	build := func(pool []rune, lo, hi int) string {
 		n := rapid.IntRange(lo, hi).Draw(t, "msgLen")
 		var b strings.Builder
@@ -83,11 +83,15 @@ func genMsg(t *rapid.T) (msg, class string) {
 	case "with-equals":
 		msg = build(msgASCII, 1, 3) + "=" + build(msgCJK, 0, 3) + build(msgASCII, 1, 3)
 	}
+	if class == "double-quoted-words" {
+		// answer must be "yes", "no" or "maybe"  (single-quoted as a whole because of the commas)
+		msg = "'" + build(msgASCII, 1, 4) + ` "` + build(msgASCII, 1, 3) + `", "` + build(msgCJK, 0, 2) + `" ` + build(msgASCII, 0, 3) + "'"
+	}
 	return msg, class
 }
 
 func msgOK(msg string) bool {
-	if msg == "" || model.AmbiguousText(msg) || strings.Contains(msg, ";") {
+	if msg == "" || model.AmbiguousMsg(msg) || strings.Contains(msg, ";") {
 		return false
 	}
 	if strings.HasPrefix(msg, "'") != strings.HasSuffix(msg, "'") {
